@@ -8,7 +8,7 @@ from ..cfg import NORMAL, Node, handler_classes
 from ..core import Ctx
 from ..flow import ALL, find_path, names_in
 from ..model import AnalysisError, FunctionInfo, dotted, norm_text
-from .common import call_keywords, effective_compare, facts_at, owner_tops, edge_target, handler_exits, handler_nodes, in_handler, kwarg, reachable_from
+from .common import call_keyword_states, call_keywords, effective_compare, facts_at, owner_tops, edge_target, handler_exits, handler_nodes, in_handler, kwarg, reachable_from
 
 EXPLANATION = (
     "Static analysis of file_lock.py / lock_provider.py: (R1) every exclusive flock / msvcrt.locking attempt carries the "
@@ -223,8 +223,9 @@ def r3(ctx: Ctx, rid: str) -> None:
             continue  # a helper introduced later: its PUT is judged at each place it is analysed in place
         for p in ctx.calls(m, prim="boto.put_object"):
             n_put += 1
-            kws = set(call_keywords(ctx, m, p))
-            ctx.ob(rid, m, "conditional PUT", p, bool(kws & {"IfNoneMatch", "IfMatch"}) and "**?" not in kws,
+            sts = call_keyword_states(ctx, m, p)
+            kws = set().union(*sts) if sts else set()
+            ctx.ob(rid, m, "conditional PUT", p, bool(sts) and all(st & {"IfNoneMatch", "IfMatch"} and "?" not in st for st in sts),
                    f"keywords {sorted(k for k in kws if k)}: create / takeover / renewal of the lock object are CAS (audit #30)",
                    nontrivial=False)
     if n_put < 3:
@@ -306,19 +307,22 @@ def r4(ctx: Ctx) -> None:
     ih = ctx.fn("lock_provider.S3LockProviderBase.is_held")
     g = ctx.cfg(ih)
     sl = ctx.slicer(ih)
-    trues = [n for n in g.nodes if n.kind == "return" and isinstance(n.ast.value, ast.Constant) and n.ast.value.value is True]  # type: ignore[union-attr]
+    rets_all = [n for n in g.nodes if n.kind == "return" and n.id in g.reachable()]
+    ret_vars = {n.ast.value.id for n in rets_all if isinstance(n.ast.value, ast.Name)}  # type: ignore[union-attr]
+    # points where the answer becomes True: `return True`, or `<returned flag> = True`
+    trues = [n for n in rets_all if isinstance(n.ast.value, ast.Constant) and n.ast.value.value is True]  # type: ignore[union-attr]
+    trues += [n for n in g.nodes if n.kind == "stmt" and isinstance(n.ast, ast.Assign) and len(n.ast.targets) == 1
+              and isinstance(n.ast.targets[0], ast.Name) and n.ast.targets[0].id in ret_vars
+              and isinstance(n.ast.value, ast.Constant) and n.ast.value.value is True]
     cmpb = [b for b in g.nodes if b.kind == "branch" and isinstance(b.ast, ast.Compare) and "lock_id" in b.text]
     for r in trues:
         ok = False
-        for b in cmpb:
-            eq = isinstance(b.ast.ops[0], ast.Eq)  # type: ignore[union-attr]
-            good, bad = ("true", "false") if eq else ("false", "true")
-            gt, bt = edge_target(g, b, good), edge_target(g, b, bad)
-            org = sl.origins(b.ast, b.id)
-            readback = any(isinstance(c, ast.Call) and (dotted(c.func) or "").endswith("get_object") for c in org["calls"])
-            if gt is not None and r.id in reachable_from(g, gt, NORMAL, avoid=[n.id for n in g.nodes if n.kind == "loop"]) \
-                    and (bt is None or r.id not in reachable_from(g, bt, NORMAL, avoid=[n.id for n in g.nodes if n.kind == "loop"])) and readback:
-                ok = True
+        for pol, e, at in facts_at(ctx, ih, r):
+            if isinstance(e, ast.Compare) and len(e.ops) == 1 and "lock_id" in norm_text(e) and \
+                    ((pol == "true" and isinstance(e.ops[0], ast.Eq)) or (pol == "false" and isinstance(e.ops[0], ast.NotEq))):
+                org = sl.origins(e, at)
+                if any(isinstance(c, ast.Call) and (dotted(c.func) or "").endswith("get_object") for c in org["calls"]):
+                    ok = True
         ctx.ob("C19.R4", ih, "`return True` only on the read-back-equal edge", r, ok,
                "ownership is claimed only when the lock object's content equals our lock_id")
     for b in cmpb:
@@ -340,7 +344,13 @@ def r4(ctx: Ctx) -> None:
                "transport errors / unknown ownership -> False (fail closed)", text=",".join(handler_classes(hn.ast)))  # type: ignore[arg-type]
     for r in [n for n in g.nodes if n.kind == "return" and n.id in g.reachable()]:
         v = r.ast.value  # type: ignore[union-attr]
-        ctx.ob("C19.R4", ih, "is_held returns a decided constant", r, isinstance(v, ast.Constant) and isinstance(v.value, bool),
+        decided = isinstance(v, ast.Constant) and isinstance(v.value, bool)
+        if isinstance(v, ast.Name):
+            # a result variable every reaching definition of which is a boolean constant
+            ds = ctx.rd(ih).reaching(r.id, v.id)
+            decided = bool(ds) and all(isinstance(g.nodes[d].ast, ast.Assign) and isinstance(g.nodes[d].ast.value, ast.Constant)
+                                       and isinstance(g.nodes[d].ast.value.value, bool) for d in ds)
+        ctx.ob("C19.R4", ih, "is_held returns a decided constant", r, decided,
                f"`{r.text}`: falling back to the process-local flag when ownership could not be read reports a lock that may have been "
                "taken over (the fence must answer False when ownership is unknown)", nontrivial=False)
     guard = [b for b in g.nodes if b.kind == "branch" and norm_text(b.ast) == "self.is_locked"]
@@ -360,17 +370,8 @@ def r4(ctx: Ctx) -> None:
     fa = ctx.fn("file_lock.FileLock.acquire")
     fg = ctx.cfg(fa)
     for r in [n for n in fg.nodes if n.kind == "return" and isinstance(n.ast.value, ast.Constant) and n.ast.value.value is True]:  # type: ignore[union-attr]
-        brs = [b for b in fg.nodes if b.kind == "branch" and isinstance(b.ast, ast.Name)]
-        ok = False
-        for b in brs:
-            defs = ctx.rd(fa).reaching(b.id, b.ast.id)  # type: ignore[union-attr]
-            from_try = any("_try_acquire_once" in norm_text(fg.nodes[d].ast) for d in defs if fg.nodes[d].ast is not None)
-            t = edge_target(fg, b, "true")
-            heads = [n.id for n in fg.nodes if n.kind == "loop_head"]
-            if from_try and t is not None and r.id in reachable_from(fg, t, NORMAL, avoid=heads):
-                fl = edge_target(fg, b, "false")
-                if fl is None or r.id not in reachable_from(fg, fl, NORMAL, avoid=heads):
-                    ok = True
+        ok = any(pol == "true" and isinstance(e, ast.Call) and (dotted(e.func) or "").endswith("_try_acquire_once")
+                 for pol, e, _at in facts_at(ctx, fa, r))
         ctx.ob("C19.R4", fa, "FileLock.acquire returns True only after an attempt succeeded", r, ok, "")
     once = ctx.fn("file_lock.FileLock._try_acquire_once")
     og = ctx.cfg(once)
